@@ -1,0 +1,11 @@
+//go:build verif
+
+// Contracts for the deductive checks under /verif (comment-only; compiled only with -tags verif).
+
+package misc
+
+// Hard fork 4 only lowers balances: the ledger never grows (it sets the listed balances to zero).
+//@ func ApplyHardFork4
+//@   requires statedb != nil
+//@   ensures[C05] @nomint supply <= old(supply)
+//@   loop 1 invariant[C05] supply <= old(supply) && big0 != nil && big(big0) == 0
